@@ -205,6 +205,7 @@ type Frame struct {
 	allow   map[string]*allowedSet // modifies clause evaluated at entry (nil: no frame reasoning)
 	callResults map[string]ssa.Value
 	siteOrd map[ssa.Instruction]int
+	pendingAfter []ssa.Instruction
 }
 
 type deferredCall struct {
@@ -422,6 +423,8 @@ func (fr *Frame) run(reach string, st *State, args []*Val) {
 			hr := fmt.Sprintf("|%sloop_%d|", fr.prefix, b.Index)
 			if !fr.dry {
 				u.S.declare(hr, "Bool")
+				// an iteration is only ever reached if the loop was entered
+				u.assert(implies(hr, rname))
 			}
 			fr.reach[b.Index] = hr
 			cur = fr.exitSt[b.Index] // set by loopHeader to the havoc'd state
@@ -662,7 +665,8 @@ func (u *Unit) rangeFormula(term string, t types.Type, depth int) string {
 	switch ut := t.Underlying().(type) {
 	case *types.Slice:
 		_ = ut
-		return fmt.Sprintf("(and (<= 0 (sl_off %s)) (<= 0 (sl_len %s)) (<= (sl_len %s) (sl_cap %s)) (<= 0 (sl_arr %s)) (=> (= (sl_arr %s) 0) (= (sl_cap %s) 0)))", term, term, term, term, term, term, term)
+		// capacity bound: a slice of non-zero-size elements cannot exceed the 2^47-byte address space of the platforms Go runs on
+		return fmt.Sprintf("(and (<= 0 (sl_off %s)) (<= 0 (sl_len %s)) (<= (sl_len %s) (sl_cap %s)) (<= (sl_cap %s) 140737488355328) (<= 0 (sl_arr %s)) (=> (= (sl_arr %s) 0) (= (sl_cap %s) 0)))", term, term, term, term, term, term, term, term)
 	case *types.Struct:
 		if depth > 3 {
 			return "true"
